@@ -127,8 +127,8 @@ fn hexwrite_canon(img: &[u8]) -> String {
         let dir = scratch_dir();
         let br = BuildResult {
             code: img.to_vec(),
-            // a different image for the EEPROM writer: every byte xor 0x5a
-            eeprom: img.iter().map(|b| b ^ 0x5a).collect(),
+            // a different image for the EEPROM writer: the image reversed (runs of 0xFF / 0x00 stay runs)
+            eeprom: img.iter().rev().cloned().collect(),
             flash_size: 0,
             eeprom_size: 0,
             ram_size: 0,
